@@ -182,6 +182,10 @@ func runEscaping(c *ucase, mux *http.ServeMux) []string {
 		kcancel()
 	}()
 	t.AddKnown(netip.MustParseAddrPort("10.9.8.7:6881"), make([]byte, 20), version, known.Seen)
+	// a peer that announced no version: the client code is taken from bytes 1..6 of its id
+	code := []string{"<i><b>", "\"'&<>x", "a&b<c>", "</td>x"}[len(name)%4]
+	id2 := []byte("-" + code + "-abcdefghijkl")
+	t.AddKnown(netip.MustParseAddrPort("10.9.8.6:6881"), id2, "", known.Seen)
 	h := t.Hash.String()
 	page := func(target string) string {
 		ctx, cancel := context.WithTimeout(context.Background(), 3*time.Second)
@@ -230,6 +234,7 @@ func runEscaping(c *ucase, mux *http.ServeMux) []string {
 		site(peers, "http://ws.example/"+wurl)
 	}
 	site(peers, version)
+	site(peers, code)
 	pl := page("/" + h + ".m3u")
 	lines := strings.Count(pl, "\n")
 	obs = append(obs, fmt.Sprintf("(ULines %d %d)", len(files), lines))
